@@ -370,7 +370,7 @@ type c16Op struct {
 func (o c16Op) String() string { return fmt.Sprintf("%s(%d)", o.Kind, o.Arg) }
 
 func c16Alphabet(ncerts int) []c16Op {
-	out := []c16Op{{"issue", 1}, {"issue", 2}, {"rotate", 0}, {"tidy", 0}, {"auto-rebuild", 1}, {"auto-rebuild", 0}, {"delete-issuer2", 0}, {"restart", 0}, {"reimport-issuer2", 0}, {"delta", 1}, {"delta", 0}, {"rotate-delta", 0}, {"import-colliding-ca", 0}, {"import-keyless-sub", 0}, {"revoke-keyless-sub", 0}, {"add-int", 1}, {"add-int", 2}, {"revoke-int", 1}, {"revoke-int", 2}, {"reissue-i1", 0}, {"set-default", 1}, {"set-default", 2}, {"set-default", 3}}
+	out := []c16Op{{"issue", 1}, {"issue", 2}, {"rotate", 0}, {"tidy", 0}, {"auto-rebuild", 1}, {"auto-rebuild", 0}, {"delete-issuer2", 0}, {"restart", 0}, {"reimport-issuer2", 0}, {"delta", 1}, {"delta", 0}, {"rotate-delta", 0}, {"import-colliding-ca", 0}, {"import-keyless-sub", 0}, {"revoke-keyless-sub", 0}, {"add-int", 1}, {"add-int", 2}, {"revoke-int", 1}, {"revoke-int", 2}, {"reimport-int", 1}, {"reissue-i1", 0}, {"set-default", 1}, {"set-default", 2}, {"set-default", 3}}
 	for i := 0; i < ncerts; i++ {
 		out = append(out, c16Op{"revoke", i})
 	}
@@ -522,6 +522,52 @@ func (w *c16World) apply(t *testing.T, op c16Op) (string, string) {
 			return "rotate-failed", txt
 		}
 		w.rotatedSinceRevoke = true
+	case "reimport-int":
+		// the intermediate int1 is removed and its very certificate imported again (its key
+		// is still in the mount): a new issuer id for the same certificate; if it was revoked
+		// it stays revoked (a rotate is part of the step so that "served now" is meaningful)
+		sc := w.subCAs["int1"]
+		if sc == nil || w.issuerGone["i2"] || w.subCAs["int2"] != nil {
+			break
+		}
+		if resp, err := w.s.Req(w.s.Root, logical.DeleteOperation, "pki/issuer/int1", nil); !OK(resp, err) {
+			return "delete-issuer-failed", ErrText(resp, err)
+		}
+		certPEM := string(pem.EncodeToMemory(&pem.Block{Type: "CERTIFICATE", Bytes: sc.cert.Raw}))
+		r3, e3 := w.s.Req(w.s.Root, logical.UpdateOperation, "pki/issuers/import/cert", map[string]interface{}{"pem_bundle": certPEM})
+		if !OK(r3, e3) || r3 == nil {
+			return "import-issuer-failed", "re-importing the intermediate: " + ErrText(r3, e3)
+		}
+		var id string
+		switch v := r3.Data["imported_issuers"].(type) {
+		case []string:
+			if len(v) > 0 {
+				id = v[0]
+			}
+		case []interface{}:
+			if len(v) > 0 {
+				id = fmt.Sprint(v[0])
+			}
+		}
+		if id == "" {
+			t.Fatalf("harness: re-import of the intermediate reported no new issuer: %v", r3.Data)
+		}
+		rename := map[string]interface{}{"issuer_name": "int1"}
+		if sc.revoked {
+			// (an update that does not name the usages asks for all of them; a revoked issuer may
+			// not get certificate signing back)
+			rename["usage"] = "crl-signing,ocsp-signing"
+		}
+		if r4, e4 := w.s.Req(w.s.Root, logical.UpdateOperation, "pki/issuer/"+id, rename); !OK(r4, e4) {
+			return "rename-issuer-failed", ErrText(r4, e4)
+		}
+		delete(w.lastCRLNum, "int1")
+		delete(w.lastCRLRaw, "int1")
+		if ok, txt := w.rotate(); !ok {
+			return "rotate-failed", txt
+		}
+		w.rotatedSinceRevoke = true
+		w.deltaRotatedSinceRevoke = true
 	case "reissue-i1":
 		// issuer 1 is re-issued on its existing key with the same subject (i1b): the two are
 		// equivalent issuers and share one CRL
